@@ -84,6 +84,13 @@ CHECKS = {
         note="Crash = process death between file-object operations (no fsync/power-loss model). ForceBias runs without a restart file here (C07 covers that it cannot be written).",
         technique="exhaustive crash-point enumeration over every file operation of every enumerated history, on the implementation's real write path",
     ),
+    "C08": dict(
+        category="exploration",
+        text="For every public module of the package (41; thorough adds every ordered pair of top-level sub-packages) a fresh interpreter imports that module first, then the rest of the package, then round-trips (to_dict -> ASE JSON -> class looked up by registered name -> from_dict -> to_dict) every concrete serializable class found by pkgutil/inspect, with each constructor parameter set to a non-default value one at a time and all together (masks, nested composites, integrator settings, max_attempts, default_label), comparing type, every constructor parameter / documented attribute, and the re-serialised dictionary; every Monte Carlo driver with all settings non-default is round-tripped through to_dict and through the restart file after two real steps.",
+        design_ref="4-C08",
+        note="Parameter alphabet is name-driven (reported: parameters without an alphabet entry). Callables and one-shot fields excepted. Base*/stub classes are not 'concrete'.",
+        technique="exhaustive enumeration of (first-imported module) x (class) x (non-default parameter) in fresh interpreters running the implementation's own serialization code",
+    ),
 }
 
 NA_REASON = "check not built yet in this session (design in DESIGN.md); no claim is made"
